@@ -1,12 +1,13 @@
 #!/bin/bash
-# run the repository's own test-suite (make check) on a scratch copy of /repo's HEAD (guard off); prints the split: lines it produced
-set -e
+# run the repository's own test-suite (make check) on a scratch copy of /repo's working tree (no verification guard defined);
+# prints the split:grow/shrink lines (the 18 baseline tests are these log lines) and exits with make's status
 WT=${1:-/var/tmp/verif-wt-tests}
-rm -rf "$WT"; git -C /repo worktree prune; git -C /repo worktree add --force --detach "$WT" HEAD >/dev/null 2>&1
-cd "$WT"
-( ./configure >/dev/null 2>&1 && make -j16 >/dev/null 2>&1 && make check > check.out 2>&1 ); rc=$?
+rm -rf "$WT"; mkdir -p "$WT"
+rsync -a --exclude .git /repo/ "$WT"/
+cd "$WT" || exit 2
+( make -j16 >/dev/null 2>&1 && make check > check.out 2>&1 ); rc=$?
 echo "make check rc=$rc"
 grep -h -o "split:\(grow\|shrink\):[^:]*:[0-9]*" check.out *.log 2>/dev/null | sort -u | head -40
 tail -5 check.out
-cd /; git -C /repo worktree remove --force "$WT"
+cd /; rm -rf "$WT"
 exit $rc
